@@ -1155,8 +1155,12 @@ func cachedClosure(c *mc.Ctx) {
 						bv := ed25519.NewBatchVerifier()
 						cv.AddWithOptions(bv, cs.pk, cs.msg, cs.sig, optSets[o.oi].o)
 						cv.Add(bv, cases[0].pk, cases[0].msg, cases[0].sig)
-						_, each := bv.Verify(zeroR{})
-						return len(each) == 2 && each[0] && each[1] == singleTab[0][optIdx["default"]], false
+						all, each := bv.Verify(zeroR{})
+						if len(each) != 2 || all != (len(each) == 2 && each[0] && each[1]) {
+							// an entry submitted through the cache must appear in the batch (as invalid, if its key is unusable)
+							panic(fmt.Sprintf("2 entries were added through the cache, the batch reports %d results %v, summary %v", len(each), each, all))
+						}
+						return each[0] && each[1] == singleTab[0][optIdx["default"]], false
 					}
 				}
 				for _, x := range h {
